@@ -52,6 +52,7 @@ structure S where
   nextReq : Nat                   -- history: number of `Use` calls so far
   glog : List Grant               -- history: all grants
   ticks : Nat                     -- history: number of the current period
+  setCaps : Nat                   -- history: number of `SetCap` calls so far
   tpc : TPC
   cpc : CPC
   lockHeld : Bool                 -- `controller.lock` is held *between* two steps
@@ -60,7 +61,7 @@ structure S where
 def init (rootCap : Nat) : S :=
   { n := 1, cap := fun _ => rootCap, chain := fun x => if x = 0 then [0] else [], used := fun _ => 0,
     last := fun _ => 0, closed := fun _ => false, unlinked := fun _ => false, waiting := [], answered := [],
-    nextReq := 0, glog := [], ticks := 0, tpc := .sel, cpc := .idle, lockHeld := false }
+    nextReq := 0, glog := [], ticks := 0, setCaps := 0, tpc := .sel, cpc := .idle, lockHeld := false }
 
 def upd {α : Type} (f : Nat → α) (i : Nat) (v : α) : Nat → α := fun x => if x = i then v else f x
 
@@ -134,7 +135,8 @@ def doDoneReceived (s : S) : S := { s with tpc := .dlock, cpc := .ret }
 /-- the final drain: every waiting request fails -/
 def doDrain (s : S) : S :=
   { s with answered := s.waiting.map (fun r => (r.id, Ans.errClosed)) ++ s.answered, waiting := [], tpc := .tend }
-def doSetCap (s : S) (l c : Nat) : S := { s with cap := upd s.cap l c }
+/-- `SetCap(capacity)` (capacities are `Nat`: the new cap is non-negative) -/
+def doSetCap (s : S) (l c : Nat) : S := { s with cap := upd s.cap l c, setCaps := s.setCaps + 1 }
 
 /-! ### the transition relation -/
 
@@ -158,6 +160,7 @@ inductive Step : S → S → Prop
       Step s (doCloseChild s l)
   | closeRoot (s : S) (h0 : s.lockHeld = false) (h1 : s.closed 0 = false) (h2 : s.cpc = .idle) :
       Step s (doCloseRootMark s)
+  | setCap (s : S) (l c : Nat) (hl : l < s.n) (h0 : s.lockHeld = false) : Step s (doSetCap s l c)
   -- ticker goroutine
   | tickFires (s : S) (h : s.tpc = .sel) : Step s (doTickFires s)
   | tickRuns (s : S) (h1 : s.tpc = .tlock) (h0 : s.lockHeld = false) : Step s (doTickRuns s)
@@ -213,8 +216,8 @@ def exec (s : S) : Op → S
     else s
   | .setCap l c => if l < s.n ∧ s.lockHeld = false then doSetCap s l c else s
 
-/-- every run of the scheduler (without `SetCap`) is a run of the transition relation -/
-theorem exec_steps (s : S) (op : Op) (h : ∀ l c, op ≠ .setCap l c) : Steps s (exec s op) := by
+/-- every run of the scheduler is a run of the transition relation -/
+theorem exec_steps (s : S) (op : Op) : Steps s (exec s op) := by
   cases op with
   | use l amt =>
     simp only [exec]
@@ -271,7 +274,11 @@ theorem exec_steps (s : S) (op : Op) (h : ∀ l c, op ≠ .setCap l c) : Steps s
       · rename_i h0
         exact .tail _ _ _ (.refl _) (.closeChild s l h.1 h0 h.2.1 h.2.2)
     · exact .refl _
-  | setCap l c => exact absurd rfl (h l c)
+  | setCap l c =>
+    simp only [exec]
+    split
+    · rename_i h; exact .tail _ _ _ (.refl _) (.setCap s l c h.1 h.2)
+    · exact .refl _
 
 /-! ### observations -/
 
